@@ -73,7 +73,7 @@ def box_int(x0: int, y0: int, z0: int, x1: int, y1: int, z1: int, qx: int, qy: i
     # agents stand at legal positions of their world (I8): anywhere in a zero-extent world, 0..extent in a continuous
     # world, 0..extent-1 in a grid world
     if kind != 'free':
-        off = env._index_offset
+        off = 1 if isinstance(env, Env.DiscreteWorld) else 0      # (by kind of world, not read back from the implementation)
         for (px, py) in ((x0, y0), (x1, y1)):
             if not (0 <= px <= env.width - off):
                 return hx.end(True)
